@@ -69,6 +69,8 @@ POOL = [
     ("static inline constexpr volatile int spec{i} = 0;", 0),
     ("int pcb{i}; /* remark {i} */", 0),
     ("int pcl{i}; // remark {i}", 0),
+    ("/// stray {i}\n;", 0),
+    ("void sec{i}();\n/// section {i}\n", 0),
     ("enum PE{i} {{ PA{i}, /* remark */\n PB{i} }};", 0),
 ]
 CLASS_POOL = [
@@ -472,8 +474,16 @@ def run(tier):
     bl = compute_baselines()
     bad_base = [k for k, v in bl.items() if isinstance(v, str)]
     if bad_base:
+        # every pool form parses in every context on the pinned tree: a form that no longer does is itself a reportable failure
         shutil.rmtree(tmpd, ignore_errors=True)
-        raise HarnessError(f"pool snippet does not parse alone: {bad_base[0]!r}: {bl[bad_base[0]]}")
+        for src_ in bad_base[:3]:
+            body = ("from cxxheaderparser.simple import parse_string\n" f"src = {src_!r}\ntry:\n    parse_string(src)\nexcept Exception as e:\n    print(repr(src)); print(e); sys.exit(1)\nsys.exit(0)\n")
+            pth = ck.write_replay(body)
+            ok, out = ck.run_replay(pth)
+            if not ok:
+                raise HarnessError(f"pool snippet failed in the baseline run but parses in a replay: {src_!r}: {bl[src_]}")
+            ck.violation(f"a declaration form that is valid in this context does not parse: {src_!r}: {bl[src_][:120]}", pth, key=dict(kind="pool-form", what=bl[src_][:40]))
+        return ck
     with open(basefile, "wb") as f:
         pickle.dump(bl, f)
     globals().update(BASEFILE=basefile, _BASE=None)
